@@ -1,5 +1,6 @@
 """C08 - HTLC deadlines: constants, the shape of every deadline guard, and the relations between sites."""
 from engine import *
+import linforms
 import guards
 import provenance
 
@@ -269,3 +270,17 @@ RULES = [
 	('08.z', 'named protocol / policy constants in this property\'s files have their reviewed values (rules/provenance.py)', lambda F: provenance.consts_for_property(F, 'C08', '08.z')),
 ]
 RULES.append(('08.G', 'guard census restricted to the deadline-handling functions (block_confirmed, do_best_block_updated, best_block_updated, do_chain_event, the forward admission helpers, timer_tick_occurred, the claims-view updaters): no reviewed call or stored-collection mutation gained a controlling condition - a fail-back / timeout / claim that silently stops happening in one situation (rules/guards.py)', lambda F: guards.for_property(F, 'C08', '08.G')))
+RULES.append(('08.K', 'constant census of linear forms: every comparison (normalised to sum >= K over name-free atoms, a comparison and its negation being one form) and every maximal arithmetic expression of a reviewed function keeps its coefficients and its constant - a dropped or added `+ 1` / `- 1`, `<` for `<=` inside a computed bound, a scale factor applied twice or not at all, swapped operands of a comparison (rules/linforms.py; shapes that appear or disappear are not judged, the guard / arithmetic censuses judge those)', lambda F: linforms.for_property(F, 'C08', '08.K')))
+
+def r08i(F):
+	"""the advertised claim deadline is the EARLIEST part's expiry less the fail-back buffer, taken over the complete HTLC set: a deadline taken from the
+	first / last part or computed before the completing part was added is later than the height at which the node itself fails one part back (08.d),
+	so the payment cannot be claimed at every height strictly below it.  Same analysis as 04.i, judged here for what C08 states."""
+	import C04
+	out = []
+	for r in C04.r04i(F):
+		r.rule = '08.i'
+		out.append(r)
+	return out
+
+RULES.append(('08.i', 'PaymentClaimable.claim_deadline derives from Iterator::min over the parts of the complete HTLC set (computed after check_incoming_mpp_part added the completing part)', r08i))
